@@ -1,0 +1,8 @@
+//go:build !verif
+
+// Package verifyield provides schedule-perturbation points for runtime verification.
+// Without the verif build tag, Point is an empty function.
+package verifyield
+
+// Point does nothing.
+func Point(string) {}
